@@ -102,9 +102,51 @@ static void run_par(const phist *h, tscript *t, int tid, vh_rng *yr)
     free(buf); free(out);
 }
 
-/* ---------- shared read-only objects (W2) ---------- */
 static Skinny128Key_t SK128; static Skinny64Key_t SK64; static Skinny128TweakedKey_t STK128; static Skinny64TweakedKey_t STK64;
 static MantisKey_t SMK; static vh_handle SPAR[CIPH_N];
+
+/* ---------- bulk requests (64 KiB and more): own objects and one shared parallel-ECB object ---------- */
+static void run_bulk(uint64_t seed, tscript *t, int tid, vh_rng *yr, int shared_par)
+{
+    vh_rng r; size_t n1, n2; uint8_t key[16], *a = malloc(300000), *b = malloc(300000); uint64_t hh; int ret, k;
+    const vh_cipher *c;
+    vh_rng_seed(&r, seed, 0x18, 555);
+    c = &vh_ciphers[vh_below(&r, CIPH_N)];
+    vh_rand_bytes(&r, key, 16); vh_rand_bytes(&r, a, 4096); for (k = 4096; k < 300000; ++k) a[k] = (uint8_t)(a[k - 4096] + 5);
+    n1 = 65536 + vh_below(&r, 70000); n2 = (65536 + vh_below(&r, 40000)) / 16 * 16;
+    if (yr) maybe_yield(yr);
+    {   /* own CTR object, one large call (out of place) then a large in-place call */
+        vh_handle h; memset(&h, 0, sizeof(h));
+        enter_lib(tid);
+        ret = c->ctr_init(&h); ret &= c->ctr_set_key(&h, key, 16, 7); ret &= c->ctr_encrypt(b, a, n1, &h); hh = vh_hash(b, n1, VH_HASH_INIT);
+        ret &= c->ctr_encrypt(b, b, n1, &h); hh = vh_hash(b, n1, hh);
+        c->ctr_cleanup(&h);
+        leave_lib();
+        ts_ret(t, ret); ts_put(t, &hh, 8);
+    }
+    if (yr) maybe_yield(yr);
+    {   /* own parallel object, and (workload 1) the shared read-only one */
+        vh_handle h; memset(&h, 0, sizeof(h));
+        enter_lib(tid);
+        ret = c->par_init(&h); ret &= c->par_set_key(&h, key, 16, 7, 1); ret &= c->par_encrypt(b, a, a + 100, n2, &h); hh = vh_hash(b, n2, VH_HASH_INIT);
+        if (c->par_decrypt) { ret &= c->par_decrypt(b, a, NULL, n2, &h); hh = vh_hash(b, n2, hh); }
+        c->par_cleanup(&h);
+        leave_lib();
+        ts_ret(t, ret); ts_put(t, &hh, 8);
+        if (shared_par) for (k = 0; k < CIPH_N; ++k) {
+            const vh_cipher *c2 = &vh_ciphers[k];
+            enter_lib(tid);
+            ret = c2->par_encrypt(b, a, a + 64, n2, &SPAR[k]); hh = vh_hash(b, n2, VH_HASH_INIT);
+            if (c2->par_decrypt) { ret &= c2->par_decrypt(b, a, NULL, n2, &SPAR[k]); hh = vh_hash(b, n2, hh); }
+            leave_lib();
+            ts_ret(t, ret); ts_put(t, &hh, 8);
+        }
+    }
+    free(a); free(b);
+}
+
+/* ---------- shared read-only objects (W2) ---------- */
+
 
 static void run_shared(uint64_t seed, tscript *t, int tid, vh_rng *yr)
 {
@@ -156,15 +198,15 @@ static void run_storm(uint64_t seed, tscript *t, int tid, vh_rng *yr)
 }
 
 /* ---------- orchestration ---------- */
-typedef struct { int tid; uint64_t seed; int workload; chist *ch; phist *ph; tscript got, want; vh_rng yr; } targ;
+typedef struct { int tid; uint64_t seed; int workload; int bulk; chist *ch; phist *ph; tscript got, want; vh_rng yr; } targ;
 static targ TA[NT_MAX];
 
 static void work(targ *a, tscript *t, int threaded)
 {
     vh_rng *yr = threaded ? &a->yr : NULL;
     switch (a->workload) {
-    case 0: run_ctr(a->ch, t, a->tid, yr); run_par(a->ph, t, a->tid, yr); break;
-    case 1: run_shared(a->seed, t, a->tid, yr); break;
+    case 0: run_ctr(a->ch, t, a->tid, yr); run_par(a->ph, t, a->tid, yr); if (a->bulk) run_bulk(a->seed, t, a->tid, yr, 0); break;
+    case 1: run_shared(a->seed, t, a->tid, yr); if (a->bulk) run_bulk(a->seed + (uint64_t)a->tid * 7919, t, a->tid, yr, 1); break;
     default: run_storm(a->seed, t, a->tid, yr); break;
     }
 }
@@ -241,7 +283,7 @@ int main(int argc, char **argv)
         }
         for (i = 0; i < NT; ++i) {
             targ *a = &TA[i];
-            a->tid = i; a->workload = workload; a->seed = vh_rand(&r);
+            a->tid = i; a->workload = workload; a->seed = vh_rand(&r); a->bulk = (rep % 12 < 2);    /* every third repetition of W1/W2 adds requests of 64 KiB .. 260 KiB */
             if (workload == 1) a->seed = vh_seed * 131 + rep;      /* all threads do the same reads on the shared objects with private buffers */
             vh_rng_seed(&a->yr, a->seed, 0x19, (uint64_t)i);
             if (workload == 0) {
